@@ -349,6 +349,24 @@ pub fn for_property(prop: &str, tier: Tier) -> Vec<(SysCfg, RunOpts)> {
             let m = cat(&z, &menu(&["DN", "DC2", "DB2", "N,N", "C2", "S,N", "C9223372036854775807:1,DN", "N,C9223372036854775807"]));
             s.pairs(&main_kinds, &l03, &z, &m, &d, &complete2());
         }
+        "C19" => {
+            // clone() racing with pulls on the original (by-reference kinds and ranges are Clone): the clone starts at a
+            // position the original had during the call, delivers exactly the rest, and neither disturbs the other
+            let ck = [K::Slice, K::VecRef, K::Range];
+            let a = menu(&["K", "N,K", "K,N", "K,K", "C2,K,N", "DN,K", "S,K"]);
+            let b = menu(&["DN", "DC2", "N,N", "C3", "DB2", "S,N", "N,K", "I,C2:1", "C9223372036854775807:1,N"]);
+            s.pairs(&ck, &[0, 1, 2, 3], &a, &b, &d, &complete2());
+            if !q {
+                let a3 = menu(&["K", "N,K"]);
+                for &kind in &ck {
+                    for x in &a3 {
+                        for (y, z) in [("DN", "DC2"), ("N,N", "S"), ("K", "DN"), ("C2", "I,I")] {
+                            s.add(SysCfg { kind, len: 3, plans: vec![x.clone(), p(y), p(z)], fin: Final::Drop, fault: Fault::None }, bounded(b3));
+                        }
+                    }
+                }
+            }
+        }
         "C17" => {
             // queries racing with overshooting pulls, skips and drains: outcomes are compared between a build with
             // debug assertions + overflow checks and one without
